@@ -4,7 +4,7 @@ _SIMD = "SIMD / assembly back ends (dolbeau AVX2/SSSE3 ChaCha20, xmm6 / xmm6int 
 NOT_COVERED = {
     "C01": ["AES-256-GCM", "AEGIS-128L / AEGIS-256 (soft back end attempted: symbolic execution does not finish)", _SIMD, "equality of the primitives with their specifications is C03/C04 (assumed here)", "secretbox byte copies are bounded to 80-byte messages"],
     "C02": ["AES-256-GCM, AEGIS", "that changing a bit changes the MAC (cryptographic strength of Poly1305 / HMAC)", _SIMD],
-    "C03": [_SIMD, "streaming over arbitrary lengths: proved per constant length (1, 63, 64 quick; 33, 65, 128, 129 thorough, the multi-block ones one output block per obligation) and per block from every state; induction over the block count is a paper lemma", "salsa2012 / salsa208 stream wrappers"],
+    "C03": [_SIMD, "streaming over arbitrary lengths: proved per constant length (1, 63, 64 quick; 33, 65, 128, 129 thorough, the multi-block ones one output block per obligation) and per block from every state; induction over the block count is a paper lemma", "salsa2012 / salsa208 stream wrappers: counter carry beyond the first byte (they have no initial-counter form, so it is out of reach of constant-length obligations)"],
     "C04": ["Poly1305 product h*r mod 2^130-5 (non-linear)", "SHA-256 / SHA-512 / BLAKE2b compression functions and their update/final buffering", _SIMD, "donna32 variant"],
     "C05": ["the Montgomery ladder's non-linear field arithmetic (fe25519_mul, sq, invert, mul32: the SAT back end does not finish; add / sub / neg / cswap / cmov / encode / decode ARE decided), ge25519_scalarmult_base, the RFC 7748 value itself", "sandy2x AVX assembly and its C glue", "25.5-bit limb field representation"],
     "C06": ["Edwards25519 group arithmetic, SHA-512, and scalar arithmetic mod L for general operands (decided only: sc25519_muladd with a in {0,1}, sc25519_reduce for s < 2^256): RFC 8032 test-vector equality and 'every produced signature verifies' are not decided", "pk_to_curve25519", "sign / sign_open overlap is bounded: messages <= 80 bytes, 8 relative offsets each"],
